@@ -118,7 +118,7 @@ func sismemberKeyFunc(cmd []string) (internal.KeyExtractionFuncResult, error) {
 	}
 	return internal.KeyExtractionFuncResult{
 		Channels:  make([]string, 0),
-		ReadKeys:  cmd[1:],
+		ReadKeys:  cmd[1:2], // cmd[2] is the member, not a key
 		WriteKeys: make([]string, 0),
 	}, nil
 }
